@@ -456,6 +456,8 @@ def source_mixture(U: np.ndarray, n_keep: int, full_in, brightness: float,
         configs[key] = configs.get(key, 0.0) + p
     if threshold:
         configs = {k: p for k, p in configs.items() if p >= threshold}
+        if not configs:
+            raise ZeroDivisionError("threshold removes every emission configuration")
         tot = sum(configs.values())
         configs = {k: p / tot for k, p in configs.items()}
     result: dict = {}
